@@ -265,3 +265,45 @@ func checkBranchPolarity(c *Ctx, rule string) {
 		}
 	}
 }
+
+// checkCountersFinal: in createManagerKeyScope the counters a restored keystore ends up with are the
+// ones of the file: a zero-initialisation of both counters (initBranchChildNum) is always followed, on
+// every path to a successful return, by putLastIndex — otherwise it wipes a counter written before it.
+func checkCountersFinal(c *Ctx, rule string) {
+	f := c.MustFn(rule, "poc/wallet/keystore", "createManagerKeyScope")
+	if f == nil {
+		return
+	}
+	key := "createManagerKeyScope:zero-init-never-final"
+	inits := callsIn(f, pkgKeystore+".initBranchChildNum")
+	puts := callsIn(f, pkgKeystore+".putLastIndex")
+	if len(puts) == 0 {
+		c.Bad(rule, key, c.Pos(f.Pos()), "the counters of the restored keystore are never written with the file's values (putLastIndex is gone): a later zero-initialisation or a missing write leaves a branch counter at 0, and keys already issued are issued again")
+		return
+	}
+	isPut := func(in ssa.Instruction) bool {
+		cl, ok := in.(*ssa.Call)
+		return ok && isCall(cl, pkgKeystore+".putLastIndex")
+	}
+	bad := false
+	for _, in := range inits {
+		r := reach(f, in, errorEdgeCut(f, in, true), isPut)
+		for _, ret := range returnsOf(f) {
+			if isNilErrorReturn(ret) && r(ret) {
+				bad = true
+			}
+		}
+	}
+	// and without any init, success still requires putLastIndex
+	r0 := reach(f, f.Blocks[0].Instrs[0], nil, isPut)
+	for _, ret := range returnsOf(f) {
+		if isNilErrorReturn(ret) && r0(ret) {
+			bad = true
+		}
+	}
+	if bad {
+		c.Bad(rule, key, c.Pos(f.Pos()), "a successful return can be reached with the zero-initialised counters as the last write (or without writing the file's counters at all): the branch counter written earlier for a restored branch is wiped, so the next key issued repeats ordinal 0")
+	} else {
+		c.OK(rule, key, c.Pos(puts[0].Pos()), "every successful return has passed putLastIndex(external, internal) after any zero-initialisation")
+	}
+}
